@@ -3,7 +3,7 @@ consumer, observer) with the line parser summarised as 'feeds abstract instructi
 from __future__ import annotations
 
 import itertools
-from typing import Any, Dict, List, Optional
+from typing import Any, Dict, List, Optional, Tuple
 
 from .absint import Interp, Path
 from .facts import AnalysisError
@@ -56,7 +56,8 @@ def produce_regex_summary(I, func, self_val, args, kwargs, node, fr):
 def load_file_summary(I, func, self_val, args, kwargs, node, fr):
     f = args[0] if args else kwargs.get("file")
     I.run.event("load_file", file=f)
-    doc = I.run.user.get("rule_doc")
+    docs = I.run.user.get("docs", {})
+    doc = docs.get(I.expr_of(f), I.run.user.get("rule_doc"))
     if doc is None:
         return Unknown("loaded_yaml", {"truthy": True, "not_none": True})
     from .models import lift_skeleton
@@ -106,4 +107,63 @@ def match_scenarios(I: Interp, file_types=("assembly", "binary"), return_modes=(
             return r
         for path in I.explore(thunk):
             out.append(MatchScenario(cfg, path, path.run.user.get("mop")))
+    return out
+
+
+def op_facts(I: Interp, events: List[Any]) -> Dict[str, Any]:
+    """what one operation did, read off its slice of the event list"""
+    facts: Dict[str, Any] = {"cfg_reads": [], "observers": [], "argv": [], "regex": [], "captures_mgr": 0}
+    for e in events:
+        if e.kind == "cfg_get":
+            facts["cfg_reads"].append((e.key, I.expr_of(e.value) if not isinstance(e.value, Obj) else
+                                       f"{e.value.cls.name}({', '.join(k + '=' + I.expr_of(v.fields.get('hex')) if isinstance(v, Obj) else k for k, v in sorted(e.value.fields.items()))})"))
+        elif e.kind == "extern_call" and e.name.endswith("subprocess.run"):
+            a = e.args[0] if e.args else e.kwargs.get("args")
+            facts["argv"].append(I.expr_of(a) if not isinstance(a, ListV) else
+                                 "[" + ", ".join(I.expr_of(x) for x in (a.items if a.absorbed is None else [a.absorbed])) + "]")
+        elif e.kind == "extern_call" and e.name.startswith("regex."):
+            facts["regex"].append((e.name, tuple(sorted((k, I.expr_of(v)) for k, v in e.kwargs.items()))))
+        elif e.kind == "construct" and e.cls == "CompleteConsumer":
+            facts["consumer"] = e.obj
+    c = facts.pop("consumer", None)
+    if c is not None:
+        obs = c.fields.get("instruction_observers")
+        facts["observers"] = [o.cls.name if isinstance(o, Obj) else repr(o) for o in obs.items] if isinstance(obs, ListV) else [repr(obs)]
+    return facts
+
+
+def run_sequence(I: Interp, ops: List[Dict[str, Any]]) -> List[Tuple[Path, List[Dict[str, Any]], List[Value]]]:
+    """perform the operations one after another in ONE run (one process): per path, the facts and result of each"""
+    p = I.p
+    mop = p.find_class("MasterOfPuppets")
+    mc_cls = p.find_class("MatchConfig")
+    E = lambda cls, m: EnumV(p.find_class(cls), m)
+
+    def thunk(I: Interp) -> Value:
+        I.run.user["docs"] = {}
+        marks, results = [], []
+        for k, op in enumerate(ops):
+            path_tag = f"PATTERN_{k}"
+            I.run.user["docs"][f"<{path_tag}>"] = {"config": op.get("config", {}), "pattern": ["nop"]}
+            mc = I.construct(mc_cls, [], {
+                "pattern_pathstr": Str((Hole(path_tag, "path", True),)),
+                "input_file": Str((Hole(f"INPUT_{k}", "path", True),)),
+                "input_file_type": E("InputFileType", op.get("file_type", "assembly")),
+                "return_only_address": TRUE if op.get("only_addr") else FALSE,
+                "return_mode": E("MatchingReturnMode", op.get("return_mode", "matched_addrs_list")),
+                "matching_mode": E("MatchingSearchMode", op.get("search_mode", "all_finds")),
+                "macros": NONE}, None, None)
+            marks.append(len(I.run.events))
+            o = I.construct(mop, [], {"match_config": mc}, None, None)
+            results.append(I.call_func(mop.find_method("perform_matching"), [], {}, o, None, None))
+        marks.append(len(I.run.events))
+        I.run.user["marks"], I.run.user["results"] = marks, results
+        return NONE
+    out = []
+    for path in I.explore(thunk):
+        if path.kind != "return":
+            continue
+        marks = path.run.user["marks"]
+        facts = [op_facts(I, path.events[marks[i]:marks[i + 1]]) for i in range(len(ops))]
+        out.append((path, facts, path.run.user["results"]))
     return out
